@@ -222,6 +222,8 @@ def is_(a, b):
         return _enum_eq(b, a)
     if isinstance(a, (VObj, VClass)) or isinstance(b, (VObj, VClass)):
         return a is b
+    if (isinstance(a, Opaque) and isinstance(b, (list, tuple, dict, set, frozenset))) or (isinstance(b, Opaque) and isinstance(a, (list, tuple, dict, set, frozenset))):
+        return False  # an opaque reference (an object handed in from outside) is never a container built inside the function
     if is_sym(a) or is_sym(b):
         raise OutOfSubset("`is` on symbolic non-singleton values")
     return a is b
